@@ -1,6 +1,7 @@
 package c20
 
 import (
+	"math"
 	"fmt"
 	"reflect"
 	"regexp"
@@ -42,6 +43,9 @@ type RefCase struct {
 	Escape  bool   `json:"escape,omitempty"`
 	Build   string `json:"build"` // map | struct | set
 	Layout  string `json:"layout,omitempty"`
+	// the option list as a sequence (optseq_test.go)
+	Shadow []OptItem `json:"shadow,omitempty"`
+	Order  int       `json:"order,omitempty"`
 }
 
 func (c RefCase) key() string { return c.Pre + c.Spell + c.Post }
@@ -54,10 +58,7 @@ func (c RefCase) cap() int64 {
 }
 
 func (c RefCase) opts() []ucfg.Option {
-	o := Case{Sep: c.Sep, MaxIdx: c.MaxIdx, NumKeys: c.NumKeys}.opts()
-	if c.Escape {
-		o = append(o, ucfg.EscapePath())
-	}
+	o := Case{Sep: c.Sep, MaxIdx: c.MaxIdx, NumKeys: c.NumKeys, Escape: c.Escape, Shadow: c.Shadow, Order: c.Order}.opts()
 	return append(o, ucfg.VarExp)
 }
 
@@ -109,6 +110,13 @@ func runRef(c RefCase, r *runlog.R) error {
 	}
 	max, numKeys, opts := c.cap(), c.NumKeys == "on", c.opts()
 	segs := classifyEsc(key, c.Sep, max, numKeys, c.Escape)
+	for _, s := range segs {
+		if s.isIdx && s.idx > materialLimit {
+			r.Class("discarded: index above 5001 under a huge MaxIdx, list not materialised")
+			r.Discard()
+			return nil
+		}
+	}
 	if runlog.IsOpen("D4") {
 		for _, s := range segs {
 			if v, ok := goInt(s.name); ok && v < 0 && !(numKeys && len(segs) == 1) {
@@ -316,16 +324,8 @@ func runRef(c RefCase, r *runlog.R) error {
 	r.ClassIf(len(segs) == 1, "reference name with a single segment")
 	// the combinations in which EnableNumKeys and EscapePath differ: a mix-up of the two is visible
 	r.ClassIf(numKeys != c.Escape && len(segs) == 1 && cls != "name: no integer literal", "numkeys != escapepath on a single-segment literal")
-	switch {
-	case c.MaxIdx == nil:
-		r.Class("maxidx: default")
-	case max <= 1:
-		r.Class("maxidx: " + strconv.FormatInt(max, 10))
-	case max <= 64:
-		r.Class("maxidx: 2..64")
-	default:
-		r.Class("maxidx: >64")
-	}
+	r.Class(capClass(c.MaxIdx))
+	seqClasses(r, baseItems(c.Sep, c.MaxIdx, c.NumKeys, c.Escape), c.Shadow, c.Order)
 	if c.Sep != "" && c.Sep != "." {
 		r.Class("sep: unusual")
 	}
@@ -352,9 +352,9 @@ var refSpellings = []string{
 }
 
 func gridRefMaxIdx() []*int64 {
-	caps := []*int64{nil, i64(0), i64(7)}
+	caps := []*int64{nil, i64(0), i64(7), i64(math.MaxInt64)}
 	if runlog.Thorough() {
-		caps = append(caps, i64(1), i64(2000))
+		caps = append(caps, i64(1), i64(2000), i64(math.MaxInt32), i64(math.MaxInt64-1))
 	}
 	return caps
 }
@@ -377,6 +377,20 @@ func enumRefs(yield func(RefCase) bool) {
 							if !yield(c) {
 								return
 							}
+							// the option list as a sequence (map site): one rotating variant, thorough tier all
+							if build != "map" {
+								continue
+							}
+							vs := seqVariants(Case{Sep: c.Sep, MaxIdx: c.MaxIdx, NumKeys: c.NumKeys})
+							if !runlog.Thorough() && len(vs) > 0 {
+								vs = vs[n%len(vs) : n%len(vs)+1]
+							}
+							for _, v := range vs {
+								c.Shadow, c.Order = v.Shadow, v.Order
+								if !yield(c) {
+									return
+								}
+							}
 						}
 					}
 				}
@@ -387,7 +401,7 @@ func enumRefs(yield func(RefCase) bool) {
 
 var subRefs = runlog.Register(&runlog.Sub[RefCase]{
 	Name: "references",
-	Rule: fmt.Sprintf("use site `name inside a reference`: full product of %d spellings (decimals around the caps, signs, leading zeros, hex/octal/binary, underscores, blanks, floats, non-ASCII digits, the int64 boundary, plain names, and bracketed texts such as [0] [a.b] [0.1] [0].[1]) x the 9 layouts of the grid (sole key / one of several keys with and without PathSep, first / middle / last dotted segment, with and without named siblings) x MaxIdx {not given, 0, 7; thorough tier also 1, 2000} x EnableNumKeys {not given, false, true} x EscapePath {not given, given} x write site of the key {NewFrom(map) and, alternating in the quick tier, NewFrom(struct tags) / SetString followed by Merge of the references; thorough: all three}; always with VarExp. The configuration holds the key with value v and, at the top level, settings with ALL reference forms ${N}, ${N:dflt}, ${N:+alt}, ${N:?msg}, ${${M}} (M a setting holding N) for three names N: the key itself, the decimal spelling of the key's number (if the spelling is another one), and a name nobody set. Oracle: String(key) finds v (the key addresses the setting it created, under EscapePath too), and for every N every form yields exactly what the getter String(N, -1) with the same options says: found s => s, s, alt, s, s; not found => error, dflt, empty, error, error (the error text is not C20's business); the settings referring to the key are also read through Unpack into a struct. Names containing $ : } or empty are not expressible in a reference and discarded. Non-trivial: as in the grid, or a bracket-escaped path under EscapePath.", len(refSpellings)),
+	Rule: fmt.Sprintf("use site `name inside a reference`: full product of %d spellings (decimals around the caps, signs, leading zeros, hex/octal/binary, underscores, blanks, floats, non-ASCII digits, the int64 boundary, plain names, and bracketed texts such as [0] [a.b] [0.1] [0].[1]) x the 9 layouts of the grid (sole key / one of several keys with and without PathSep, first / middle / last dotted segment, with and without named siblings) x MaxIdx {not given, 0, 7, MaxInt64; thorough tier also 1, 2000, MaxInt32, MaxInt64-1} x EnableNumKeys {not given, false, true} x EscapePath {not given, given} x option-list variant at the map site {every option once; one (thorough: every) variant of the grid's list with overridden earlier occurrences of EnableNumKeys / MaxIdx / PathSep} x write site of the key {NewFrom(map) and, alternating in the quick tier, NewFrom(struct tags) / SetString followed by Merge of the references; thorough: all three}; always with VarExp. The configuration holds the key with value v and, at the top level, settings with ALL reference forms ${N}, ${N:dflt}, ${N:+alt}, ${N:?msg}, ${${M}} (M a setting holding N) for three names N: the key itself, the decimal spelling of the key's number (if the spelling is another one), and a name nobody set. Oracle: String(key) finds v (the key addresses the setting it created, under EscapePath too), and for every N every form yields exactly what the getter String(N, -1) with the same options says: found s => s, s, alt, s, s; not found => error, dflt, empty, error, error (the error text is not C20's business); the settings referring to the key are also read through Unpack into a struct. Names containing $ : } or empty are not expressible in a reference and discarded. Non-trivial: as in the grid, or a bracket-escaped path under EscapePath.", len(refSpellings)),
 	Enum: enumRefs,
 	Run:  runRef,
 })
@@ -401,7 +415,7 @@ func TestReferences(t *testing.T) { subRefs.Enumerate(t, true) }
 func genRef(t *rapid.T) RefCase {
 	b := genCase(t)
 	e := b.Entries[0]
-	c := RefCase{Pre: e.Pre, Spell: e.Spell, Post: e.Post, Sibl: "-", Sep: b.Sep, MaxIdx: b.MaxIdx, NumKeys: b.NumKeys, Build: b.Build}
+	c := RefCase{Pre: e.Pre, Spell: e.Spell, Post: e.Post, Sibl: "-", Sep: b.Sep, MaxIdx: b.MaxIdx, NumKeys: b.NumKeys, Build: b.Build, Shadow: b.Shadow, Order: b.Order}
 	if c.Build == "imap" {
 		c.Build = "map"
 	}
@@ -420,7 +434,7 @@ func genRef(t *rapid.T) RefCase {
 
 var subRandRefs = runlog.Register(&runlog.Sub[RefCase]{
 	Name: "random-references",
-	Rule: "use site `name inside a reference` with the key generator of random-literals (random Go integer literals, 1/3 damaged, single segment or inside a path of 1-5 segments, PathSep '.', none or unusual, MaxIdx not given / small / hugging the value / constants, EnableNumKeys not given/false/true, write site map/struct/set), EscapePath given in half of the cases, in 1/6 the whole key and in 1/6 the spelling alone enclosed in brackets (on top of the 1/8 bracketed keys of that generator). Same configuration (all five reference forms for the key itself, the decimal spelling of its number, a name nobody set) and same oracle as `references`: every form yields what the getter with the same name and options finds. Distinct: hash of the case.",
+	Rule: "use site `name inside a reference` with the key generator of random-literals (random Go integer literals, 1/3 damaged, single segment or inside a path of 1-5 segments, PathSep '.', none or unusual, MaxIdx not given / small / hugging the value / constants / boundary values up to MaxInt64, EnableNumKeys not given/false/true, option lists with overridden earlier occurrences in 3/5, write site map/struct/set), EscapePath given in half of the cases, in 1/6 the whole key and in 1/6 the spelling alone enclosed in brackets (on top of the 1/8 bracketed keys of that generator). Same configuration (all five reference forms for the key itself, the decimal spelling of its number, a name nobody set) and same oracle as `references`: every form yields what the getter with the same name and options finds. Distinct: hash of the case.",
 	Gen:  genRef,
 	Run:  runRef,
 })
